@@ -38,7 +38,9 @@ def mem_universe():
                         field(10, "default", L(M(T("string"), T("i32")))), field(11, "default", SET(M(T("i32"), T("string")))),
                         field(12, "default", L(L(T("string")))), field(13, "default", M(T("string"), L(T("binary")))),
                         field(14, "optional", T("i64", True)), field(15, "optional", T("string", True)), field(16, "optional", T("i16", True)),
-                        field(17, "default", L(SET(T("double")))), field(18, "default", M(T("i64"), M(T("string"), T("string"))))], unk=True)
+                        field(17, "default", L(SET(T("double")))), field(18, "default", M(T("i64"), M(T("string"), T("string")))),
+                        field(19, "default", M(T("string"), L(T("i64")))), field(20, "default", M(T("i32"), T("binary"))),
+                        field(21, "default", L(L(T("i64"))))], unk=True)
     return U.with_defaults(d)
 
 
@@ -68,10 +70,21 @@ def sized_value(s, defs, n, salt):
             cnt = max(1, n // w) if w and not t["e"].get("ptr") else min(4, 1 + n % 5)
             if depth <= 0:
                 cnt = 0
-            return {"nil": False, "items": [go(t["e"], depth - 1, sl + j) for j in range(cnt)]}
+            items = [go(t["e"], depth - 1, sl + j) for j in range(cnt)]
+            for j, it in enumerate(items):      # list of lists: a non-empty inner list followed by an empty one
+                if j % 2 == 1 and isinstance(it, dict) and "items" in it:
+                    items[j] = {"nil": False, "items": []}
+            return {"nil": False, "items": items}
         if k == "map":
-            cnt = 0 if depth <= 0 else min(3, 1 + n % 4)
-            return {"nil": False, "ents": [[U.key_n(t["kt"], j + sl, defs), go(t["vt"], depth - 1, sl + j)] for j in range(cnt)]}
+            cnt = 0 if depth <= 0 else min(4, 2 + n % 3)
+            ents = [[U.key_n(t["kt"], j + sl, defs), go(t["vt"], depth - 1, sl + j)] for j in range(cnt)]
+            # a non-empty container value followed by an empty one (the decoder reuses one slot for all values)
+            for j, e in enumerate(ents):
+                if j % 2 == 1 and isinstance(e[1], dict) and "items" in e[1]:
+                    e[1] = {"nil": False, "items": []}
+                if j % 2 == 1 and isinstance(e[1], dict) and "b" in e[1]:
+                    e[1] = {"nil": False, "b": []}
+            return {"nil": False, "ents": ents}
         if k == "struct":
             unk = []
             if defs[t["s"]].get("unk"):
@@ -122,9 +135,19 @@ def run06(prop, tier, seed, work):
         steps = [{"op": "decode", "ty": ty, "in": m, "dest": "fresh", "hooks": True}, {"op": "walk", "objs": [0]}]
         main = 0            # step index of the decode that last filled the main object
         kept = []           # other objects still alive (besides main)
-        plan = rng.sample(["overwrite", "more", "gc", "more", "gc", "reuse"], rng.randrange(2, 7))
+        plan = rng.sample(["overwrite", "more", "gc", "more", "gc", "reuse", "bad", "bad"], rng.randrange(2, 9))
         for a in plan:
-            if a == "reuse":
+            if a == "bad":
+                # a decode that fails midway (truncated message) through the same pooled decoder, then a good one
+                (t2, m2) = rng.choice(allm)
+                cut = rng.randrange(1, max(2, len(m2)))
+                steps.append({"op": "decode", "ty": t2, "in": m2[:cut], "dest": "fresh", "hooks": True})
+                steps.append({"op": "recheck", "obj": main, "after": "decode"})
+                (t3, m3) = rng.choice(allm)
+                steps.append({"op": "decode", "ty": t3, "in": m3, "dest": "fresh", "hooks": True})
+                kept.append(len(steps) - 1)
+                steps.append({"op": "recheck", "obj": main, "after": "decode"})
+            elif a == "reuse":
                 # the caller copies the struct (keeps its pointers), then decodes the next message into the same target
                 steps.append({"op": "clone", "obj": main})
                 ck = len(steps) - 1
